@@ -1,15 +1,17 @@
 import QP.Model.PT
 import QP.Proofs.PTTop
 import QP.Proofs.PTMulti
+import QP.Proofs.PTPoint
 /-! Stage 2 of compile correctness: table atoms and channel-parallel atomic composition in addition to stage 1. -/
 namespace QP.PT
 
-/-- atomic templates whose `build_waveform` is proved correct: constant, function, table, and
+/-- atomic templates whose `build_waveform` is proved correct: constant, function, table, point, and
 `AtomicMultiChannelPT` over such templates -/
 inductive AtomTree : PT → Prop
   | const {id dur amps meas} : AtomTree (.const id dur amps meas)
   | func {id ch dur e meas cons} : AtomTree (.func id ch dur e meas cons)
   | table {id entries meas cons} : AtomTree (.table id entries meas cons)
+  | point {id chans entries meas cons} : AtomTree (.point id chans entries meas cons)
   | atomicMulti {id subs dur meas cons} : (∀ p ∈ subs, AtomTree p) → AtomTree (.atomicMulti id subs dur meas cons)
 
 theorem AtomTree.buildOK {pt : PT} (h : AtomTree pt) : BuildOK pt := by
@@ -17,6 +19,7 @@ theorem AtomTree.buildOK {pt : PT} (h : AtomTree pt) : BuildOK pt := by
   | const => exact buildOK_const _ _ _ _
   | func => exact buildOK_func _ _ _ _ _ _
   | table => exact buildOK_table _ _ _ _
+  | point => exact buildOK_point _ _ _ _ _
   | atomicMulti _ ih => exact buildOK_atomicMulti _ _ _ _ _ ih
 
 /-- the constructor subset of stage 2: `AtomTree` atoms composed by sequencing, repetition, indexed iteration and
@@ -37,6 +40,7 @@ theorem Stage2.basic {pt : PT} (h : Stage2 pt) : Basic pt := by
     | const => exact Basic.const hb
     | func => exact Basic.func hb
     | table => exact Basic.table hb
+    | point => exact Basic.point hb
     | atomicMulti _ => exact Basic.atomicMulti hb
   | seq _ ih => exact Basic.seq ih
   | rep _ ih => exact Basic.rep ih
